@@ -26,6 +26,10 @@ filt reset | filt get <dtype> <ndim> <[tensor shape]>
                                           value says at which call the cell was last recomputed
 zoom reset | zoom call <back 0|1> <tag>   ZoomFastFourierTransform forward/backward at complex dtype <tag>
 load <N> <M> <[buf]> <[f]>                Fft.loadArray N M buf f at positions 0..M-1 (exact rationals)
+wldiff <l1> <l2>                          `wlKeyDiffBounds`: exact rational enclosure of key(l2) - key(l1), 0 < l1 <= l2
+covers <gridDep 0|1> <wlDep 0|1> <[dims]>  `uncovered`: which of the dimensions read (0 coordinates, 1 weights, 2 wavelength of the
+                                          request) the request key does not retain
+family <name>                             the declared row of a shipped family (`shippedFamilies`) and its uncovered reads
 dnew <gridDep 0|1> <wlDep 0|1> <num>      start a fresh element made by make_agnostic_optical_element
 dreq <i|-> <o|-> <w|-> <out|->            its get_instance(i, o, w); out = id of the output grid of the element that
                                           would be constructed for input grid i ('-' = not needed)
@@ -68,6 +72,12 @@ def parseOptGrid? (s : String) : Option (Option Nat) :=
       | some c, some w => some (some (gridKey ⟨c, w⟩))
       | _, _ => none
     | _ => none
+
+def dimOfNat? : Nat → Option Dim
+  | 0 => some .coords | 1 => some .weights | 2 => some .wavelength | _ => none
+
+def natOfDim : Dim → Nat
+  | .coords => 0 | .weights => 1 | .wavelength => 2
 
 def parseBool? (s : String) : Option Bool :=
   if s == "1" then some true else if s == "0" then some false else none
@@ -174,6 +184,27 @@ def step (st : St) : List String → St × String
         (st, "ok " ++ showRatList ((List.range m).map a))
       else (st, "bad-op")
     | _, _, _, _ => (st, "bad-op")
+  | ["wldiff", a, b] =>
+    match parseRat? a, parseRat? b with
+    | some l1, some l2 =>
+      if 0 < l1 ∧ l1 ≤ l2 then
+        let bd := wlKeyDiffBounds l1 l2
+        (st, s!"ok lo={showRat bd.1} hi={showRat bd.2}")
+      else (st, "bad-op")
+    | _, _ => (st, "bad-op")
+  | ["covers", g, w, ds] =>
+    match parseBool? g, parseBool? w, parseNatList? ds with
+    | some g, some w, some ds =>
+      match ds.mapM dimOfNat? with
+      | some reads => (st, s!"ok uncovered={showNatList ((uncovered g w reads).map natOfDim)}")
+      | none => (st, "bad-op")
+    | _, _, _ => (st, "bad-op")
+  | ["family", name] =>
+    match familyOf name with
+    | some f =>
+      (st, s!"ok grid={if f.gridDep then 1 else 0} wl={if f.wlDep then 1 else 0} reads={showNatList (f.reads.map natOfDim)} " ++
+           s!"uncovered={showNatList ((uncovered f.gridDep f.wlDep f.reads).map natOfDim)}")
+    | none => (st, "err unknown-family")
   | ["dnew", g, w, n] =>
     match parseBool? g, parseBool? w, parseNat? n with
     | some g, some w, some n => ({ st with dGrid := g, dWl := w, dNum := n, deco := Deco.DSt.init }, "ok")
